@@ -14,7 +14,7 @@ LEVEL = "model_checking"
 TECHNIQUE = "(a) breadth-first explicit-state search over constructor / encode / decode / discard histories over pairs and triples of command classes with a differential oracle (same operation alone); (b) preemption-bounded exhaustive enumeration of thread schedules at source-line granularity under a sys.settrace + semaphore-baton scheduler owning real threads"
 RULE = ("(a) pool of 10 classes chosen to collide (6/10/12/16-byte CDBs, inherited layout, constructors that raise after touching shared state, "
         "mutable arguments); operations new(X, 2 argument variants), new-invalid(X), X.unmarshall_cdb, X.marshall_cdb, repeat-marshal with the same "
-        "caller objects, deep copy of a live command (then modified), display helpers (print_cdb / print / repr) of a command, a caller-owned segment dictionary re-used after the caller changed its kind (also after a refused construction), first-use in 13 fresh processes (see C02), decoded result dictionaries kept by the caller (8 methods x a shallow copy decoding another answer / the same command decoding again / a second command): unchanged; data-in buffers kept by the caller after their command was dropped and collected (6 classes x 6 classes x sizes 96 .. 1 MiB): never handed to a later command; same-thread re-entrancy: for every ordered pair of pool classes (and decoders) B runs to completion between two library lines of A, at every line of A in turn (signal handler / finalizer semantics), both observing what they observe alone; an opcode scan (a CDB marshalled for each of the 256 operation code values, 4 orders) with the pool classes observed before and after every 32 values; every pool class and decoder 300 (thorough 1100 / 66000) times in a row, each repetition observing what the first did; EXTENDED COPY segment kinds A, B, A in fresh processes (6 kinds x flag keys, both classes: bytes or refusal of A unchanged), the same battery of builds and decodes in 6 interpreters differing only in PYTHONHASHSEED, two commands over one caller-owned buffer with the first discarded and garbage-collected (WRITE, WRITE SAME, EXTENDED COPY inline data, ATA PASS-THROUGH 12/16 x all 256 ATA command codes x both directions), del; BFS with de-duplication on a digest of class-level state + live objects, all pairs to depth 4 (thorough 5) and all "
+        "caller objects, deep copy of a live command (then modified), display helpers (print_cdb / print / repr) of a command, a caller-owned segment dictionary re-used after the caller changed its kind (also after a refused construction), first-use in 13 fresh processes (see C02), decoded result dictionaries kept by the caller (8 methods x a shallow copy decoding another answer / the same command decoding again / a second command): unchanged; data-in buffers kept by the caller after their command was dropped and collected (6 classes x 6 classes x sizes 96 .. 1 MiB): never handed to a later command; 8 pairs of decoders with one preemption at every BYTECODE INSTRUCTION of the command modules (thread switches inside a source line); same-thread re-entrancy: for every ordered pair of pool classes (and decoders) B runs to completion between two library lines of A, at every line of A in turn (signal handler / finalizer semantics), both observing what they observe alone; an opcode scan (a CDB marshalled for each of the 256 operation code values, 4 orders) with the pool classes observed before and after every 32 values; every pool class and decoder 300 (thorough 1100 / 66000) times in a row, each repetition observing what the first did; EXTENDED COPY segment kinds A, B, A in fresh processes (6 kinds x flag keys, both classes: bytes or refusal of A unchanged), the same battery of builds and decodes in 6 interpreters differing only in PYTHONHASHSEED, two commands over one caller-owned buffer with the first discarded and garbage-collected (WRITE, WRITE SAME, EXTENDED COPY inline data, ATA PASS-THROUGH 12/16 x all 256 ATA command codes x both directions), del; BFS with de-duplication on a digest of class-level state + live objects, all pairs to depth 4 (thorough 5) and all "
         "triples to depth 3 (thorough 4); in every state every live object and every class's codec is compared with what the same call yields "
         "alone; decode histories A,B,A over every ordered pair of 20 response kinds in a fresh process (result for A identical before and after B). (b) 2 threads (thorough: also 3), each 'c=X(..); bytes(c.cdb); X.unmarshall_cdb; X.marshall_cdb; len(c.datain)', every ordered "
         "pair of pool classes, plus decoder threads (standard INQUIRY, VPD 83h, MODE SENSE(10), REPORT LUNS, RTPG, READ FULL STATUS, READ ELEMENT STATUS, sense) in all ordered pairs, all schedules with at most 1 preemption at every traced source line of the library (thorough: also all schedules with at most 2 preemptions at function-entry granularity for the pairs over 5 classes of different CDB lengths, and 2 preemptions at "
@@ -97,6 +97,7 @@ def partitions(tier):
     parts += [["segstar", ver, kind, ek] for ver in (4, 5) for kind in SEG_KINDS for ek in ("", "dc", "cat")]
     parts += [["count", n, count_for(n, tier)] for n in POOL + list(DECODER_CASES)]
     parts += [["scan", o] for o in ("up", "down", "groups", "interleaved")]
+    parts += [["opsched", list(p_)] for p_ in OPCODE_PAIRS]
     ent = POOL + (list(THREAD_DECODERS) if tier != "quick" else ["dec:inquiry_std", "dec:vpd83", "dec:prfull"])
     parts += [["reentrant", a] for a in ent]
     decs = list(THREAD_DECODERS)
@@ -407,6 +408,9 @@ DECODER_CASES = {
     "dec:readcd_m1": ["readcd", 2, 0x1E, 0, 0, 0x100, 2, 0],         # Mode 1, all headers selected (mapped: no sub-header)
     "dec:readcd_m2": ["readcd", 3, 0x0C, 0, 2, 0x200, 1, 0],         # Mode 2 formless, all headers only
     "dec:readcd_m1s": ["readcd", 2, 0x08, 2, 0, 0, 1, 0],            # Mode 1, sub-header only (nothing of the main channel)
+    "dec:reportluns6": ["reportluns", [0, 1 << 48, 2 << 48, 3 << 48, 4 << 48, 5 << 48], 0],
+    "dec:reportluns1": ["reportluns", [7 << 48], 0],
+    "dec:reportluns12": ["reportluns", [i << 48 for i in range(12)], 0],
 }
 THREAD_DECODERS = ["dec:inquiry_std", "dec:vpd83", "dec:mode10", "dec:reportluns", "dec:rtpg", "dec:prfull", "dec:res", "dec:sense"]
 
@@ -494,6 +498,9 @@ def run_schedules(names, bound, gran, acc, tag, max_schedules=None):
 
     def make():
         return sched_bodies(names)
+    if getattr(gran, "opcodes", False):
+        # (CPython installs the per-instruction instrumentation when it is first asked for; the first traced run sees no events)
+        sched.Execution(make(), [], pre, gran).run()
 
     def on_exec(x):
         case = ["sched", names, list(x.choices), tag]
@@ -658,6 +665,101 @@ def run_reentrant(a, b, acc=None):
             return out, k + 1
         k += 1
     return out, k
+
+
+def decoders_only_opcodes(filename, lineno, event):
+    """scheduling points at every bytecode instruction of the command modules (not of the shared converter): thread switches INSIDE a
+    source line (between evaluating an expression and storing its result)"""
+    return "scsi_cdb_" in filename
+
+
+decoders_only_opcodes.opcodes = True
+
+# (first thread, second thread, decoder run alone afterwards in the same process)
+OPCODE_PAIRS = [("dec:reportluns1", "dec:reportluns6", "dec:reportluns12"), ("dec:reportluns6", "dec:reportluns1", "dec:reportluns12"),
+                ("dec:reportluns", "dec:reportluns6", "dec:reportluns12"), ("dec:prkeys", "dec:prkeys", "dec:prkeys"),
+                ("dec:getlbastatus", "dec:reportluns6", "dec:getlbastatus"), ("dec:rtpg", "dec:rtpg", "dec:rtpg"), ("dec:inquiry_std", "dec:vpd83", "dec:vpd83"),
+                ("dec:res", "dec:res_dt", "dec:res_ie"), ("dec:discinfo0", "dec:discinfo1", "dec:discinfo2")]
+
+
+def _in_child(fn):
+    """run fn() in a forked child (the state of this process - classes not yet used - is the child's starting state); returns its
+    pickled result"""
+    import pickle
+    r, w = os.pipe()
+    pid = os.fork()
+    if pid == 0:
+        try:
+            os.close(r)
+            try:
+                res = ("ok", fn())
+            except BaseException as e:   # noqa: BLE001
+                res = ("err", "%s: %s" % (type(e).__name__, e))
+            with os.fdopen(w, "wb") as f:
+                f.write(pickle.dumps(res))
+        finally:
+            os._exit(0)
+    os.close(w)
+    with os.fdopen(r, "rb") as f:
+        data = f.read()
+    os.waitpid(pid, 0)
+    st, val = pickle.loads(data)
+    if st != "ok":
+        raise RuntimeError("child failed: %s" % val)
+    return val
+
+
+def run_opsched(names, acc=None, only=None):
+    """two decoders in two threads, ONE preemption at every bytecode instruction of the command modules, every schedule started in a
+    FRESHLY FORKED process in which neither decoder has run yet (what the first use in a process builds lazily is built under the
+    interleaving); after the schedule the second decoder runs once more alone in that process.  Every observation equals what the
+    decoder observes alone in a fresh process."""
+    repo = os.environ.get("VF_REPO", "/repo")
+    pre = os.path.join(repo, "pyscsi") + "/"
+    gran = decoders_only_opcodes
+    # per-instruction instrumentation is installed on first request: warm it up on a decoder that is not part of the experiment
+    warm = "dec:prcaps" if "dec:prcaps" not in names else "dec:sense"
+    sched.Execution([decoder_body(warm), decoder_body(warm)], [], pre, gran).run()
+    sched.Execution([decoder_body(warm), decoder_body(warm)], [], pre, gran).run()
+    later_name = names[2] if len(names) > 2 else names[1]
+    names = list(names[:2])
+    want = [_in_child(lambda n=n: decoder_body(n)()) for n in names + [later_name]]
+
+    def one(choices):
+        def fn():
+            x = sched.Execution([decoder_body(n) for n in names], choices, pre, gran).run()
+            later = decoder_body(later_name)()
+            return ([None if e is None else "%s: %s" % (type(e).__name__, e) for e in x.errors], list(x.results), later, len(x.points),
+                    [len(p[1]) if isinstance(p[1], (list, tuple)) else 1 for p in x.points])
+        return _in_child(fn)
+    out = []
+
+    def judge(res, choices):
+        errors, results, later, npoints, _ = res
+        for tid, n in enumerate(names):
+            if errors[tid] is not None:
+                out.append(("opsched/thread_raises/%s" % n, "%r with a switch at instruction point %d in a fresh process: thread %d raised %s" % (names, len(choices) - 1, tid, errors[tid])))
+            elif results[tid] != want[tid]:
+                out.append(("opsched/thread_interference/%s" % n, "%r with a switch at instruction point %d in a fresh process: thread %d observes another result than alone" % (names, len(choices) - 1, tid)))
+        if later != want[2]:
+            out.append(("opsched/later_decode/%s" % later_name, "%r with a switch at instruction point %d in a fresh process: a LATER decode of %s alone gives %s, in a fresh process %s"
+                        % (names, len(choices) - 1, later_name, str(later)[:160], str(want[2])[:160])))
+    if only is not None:
+        judge(one(only), only)
+        return out, 1
+    base = one([])
+    judge(base, [])
+    npoints = base[3]
+    n = 1
+    for i in range(npoints):
+        if out:
+            break
+        choices = [0] * i + [1]
+        judge(one(choices), choices)
+        n += 1
+        if acc is not None:
+            acc.transitions += 1
+    return out, n
 
 
 def run_scan(order):
@@ -879,6 +981,8 @@ def run_discard(case):
 
 
 def run_case(case):
+    if case[0] == "opsched":
+        return run_opsched(case[1], None, case[2] if case[2] is not None else [])[0]
     if case[0] == "results":
         return run_results(case[1], case[2])
     if case[0] == "keep_datain":
@@ -908,7 +1012,10 @@ def run_case(case):
     _, names, choices, tag = case
     repo = os.environ.get("VF_REPO", "/repo")
     pre = os.path.join(repo, "pyscsi") + "/"
-    x = sched.Execution(sched_bodies(names), choices, pre, {"coarse": coarse, "calls": calls_only}.get(tag)).run()
+    gran_ = {"coarse": coarse, "calls": calls_only, "opcodes": decoders_only_opcodes}.get(tag)
+    if getattr(gran_, "opcodes", False):
+        sched.Execution(sched_bodies(names), [], pre, gran_).run()
+    x = sched.Execution(sched_bodies(names), choices, pre, gran_).run()
     want = sched_want(names)
     out = []
     for tid, n in enumerate(names):
@@ -1051,6 +1158,20 @@ def run_partition(part, tier, seed):
         for k, w in v:
             acc.violation("decode_history/" + k.split("/", 1)[1], w, case)
         acc.outcome((a, tuple(k for k, _ in v)))
+        return acc
+    if part[0] == "opsched":
+        # one preemption at EVERY BYTECODE INSTRUCTION of the decoder modules (a thread switch inside a source line), then the first
+        # decoder once more alone: what an interleaving leaves behind in the class must not show in a later decode
+        names = part[1]
+        v, n = run_opsched(names, acc)
+        acc.add("schedules", n)
+        acc.add("schedules_instruction_granularity_fresh_process", n)
+        acc.traces += n
+        case = ["opsched", names, ([0] * (n - 2) + [1]) if v and n > 1 else None]
+        acc.case(case, nontrivial=True, key=repr(case[:2]))
+        for k, w in v:
+            acc.violation(k, w, case)
+        acc.outcome((tuple(names), n, tuple(k for k, _ in v)))
         return acc
     if part[0] == "sched":
         names = part[1]
